@@ -89,7 +89,9 @@ impl Server {
         timer.set_timeout(delay, ());
 
         let poll = Poll::new().unwrap();
-        poll.register(&socket, EVT_MESSAGE, Ready::readable(), PollOpt::edge())
+        // Level-triggered: process_events() handles one batch per event and returns, so the
+        // socket must keep signalling while datagrams are pending
+        poll.register(&socket, EVT_MESSAGE, Ready::readable(), PollOpt::level())
             .unwrap();
         poll.register(
             &timer,
@@ -201,19 +203,17 @@ impl Server {
 
         for msg in events.iter() {
             match msg.token() {
-                EVT_MESSAGE => loop {
+                // One batch per event: returning to the caller between batches lets it observe
+                // a shutdown request even while the socket never runs empty
+                EVT_MESSAGE => {
                     self.responder_ietf.reset();
                     self.responder_classic.reset();
 
-                    let socket_now_empty = self.collect_requests();
+                    self.collect_requests();
 
                     self.responder_ietf.send_responses(&mut self.socket, &mut self.stats_recorder);
                     self.responder_classic.send_responses(&mut self.socket, &mut self.stats_recorder);
-
-                    if socket_now_empty {
-                        break;
-                    }
-                },
+                }
                 EVT_HEALTH_CHECK => self.handle_health_check(),
                 EVT_STATUS_UPDATE => self.send_client_stats(),
                 _ => unreachable!(),
